@@ -1,11 +1,18 @@
 #!/venv/bin/python
 """Apply each kept seeded change (seeded/<id>/patch.diff) to /repo, run the property's quick check, undo.
-usage: run_seeded.py [id ...]   -> prints one line per seeded change: caught (VIOLATION with replay) / caught-nfi / MISSED"""
+usage: run_seeded.py [--isolated] [--seeds=0,1] [--harmless] [id ...]
+ -> one line per change: caught (VIOLATION with replay) / caught-nfi / MISSED
+ With --harmless the changes are the property-PRESERVING rewrites kept under harmless/<id>/: the expected outcomes are
+ `quiet` (exit 0) or `no-failing-input-found` (a proof obligation / the correspondence broke and no failing input
+ exists - what the decision rule prescribes); `ALARM` = a violation with a concrete failing input, i.e. a false alarm
+ (or a rewrite that is not harmless after all) that has to be looked at."""
 import json, os, subprocess, sys
 HERE = os.path.dirname(os.path.dirname(os.path.abspath(__file__)))
 ISO = "--isolated" in sys.argv
+HARMLESS = "--harmless" in sys.argv
+KIND = "harmless" if HARMLESS else "seeded"
 args = [a for a in sys.argv[1:] if not a.startswith("--")]
-ids = args or sorted(os.listdir(os.path.join(HERE, "seeded")))
+ids = args or sorted(os.listdir(os.path.join(HERE, KIND)))
 rc_all = 0
 if ISO:
     # run in a private copy of /verif against a private worktree of /repo: nothing shared is touched
@@ -18,7 +25,7 @@ if ISO:
     import shutil
     shutil.copy("/repo/src/pydrobert/speech/_version.py", WT + "/src/pydrobert/speech/_version.py")
     for sid in ids:
-        d = os.path.join(HERE, "seeded", sid)
+        d = os.path.join(HERE, KIND, sid)
         meta = json.load(open(os.path.join(d, "meta.json")))
         a = subprocess.run(["git", "-C", WT, "apply", os.path.join(d, "patch.diff")], capture_output=True, text=True)
         if a.returncode:  # the tree moved on since the change was written: fall back to a fuzzy patch
@@ -36,6 +43,12 @@ if ISO:
                     res = "caught-no-failing-input-found"
                 else:
                     res = "MISSED"; rc_all = 1
+                if HARMLESS:
+                    res = {"caught (replay with failing input)": "ALARM (violation with a concrete failing input)",
+                           "caught-no-failing-input-found": "no-failing-input-found (obligation / correspondence broke, nothing fails)",
+                           "MISSED": "quiet"}[res]
+                    if p.returncode not in (0, 1):
+                        res = "INFRASTRUCTURE-ERROR rc=%d" % p.returncode
                 print("%-10s %-4s seed=%s rc=%d %s | %s" % (sid, prop, seed, p.returncode, res, (v[0] if v else (p.stdout.strip().splitlines() or ["?"])[-1])[:160]), flush=True)
         finally:
             subprocess.run(["git", "-C", WT, "checkout", "--", "."])
@@ -44,7 +57,7 @@ if ISO:
     _sh.rmtree(COPY, ignore_errors=True)
     sys.exit(rc_all)
 for sid in ids:
-    d = os.path.join(HERE, "seeded", sid)
+    d = os.path.join(HERE, KIND, sid)
     meta = json.load(open(os.path.join(d, "meta.json")))
     props = meta.get("checks") or [meta["property"]]
     st = subprocess.run(["git", "-C", "/repo", "status", "--porcelain", "--untracked-files=no"], capture_output=True, text=True).stdout
